@@ -140,7 +140,9 @@ pub fn sweep_acquire(rep: &mut Report, specs: &[Spec], flavours: &[Flavour], pro
 	let mut cases = vec![];
 	for (si, info) in infos.iter().enumerate() {
 		let Some(info) = info else {
-			rep.machinery.push(format!("catalogue spec {:?} was rejected by its constructor", specs[si]));
+			// every catalogue input is duplicate-free: a rejection is a duplicate-detection failure (C07), reported as a
+			// cross-reference here; the sweep goes on without that shape
+			rep.violation(Viol { prop: "C07".into(), key: format!("false-duplicate|{}", specs[si].shape_key()), detail: format!("the checked constructor rejected the duplicate-free catalogue input {}", specs[si].describe()), replay: json!({"kind": "seq-construct", "spec": specs[si]}) });
 			continue;
 		};
 		for a in assignments(info) {
@@ -587,16 +589,22 @@ pub fn check_c08(tier: &str) -> ! {
 				}
 			}
 			drop(key);
-			// an owned group's leaves must be contiguous and in declared order
-			for (_, sq) in &seqs {
-				for u in 0..crate::world::NOW {
-					let ol = crate::world::ow_leaves(u);
-					let pos: Vec<usize> = sq.iter().enumerate().filter(|(_, l)| ol.contains(l)).map(|(i, _)| i).collect();
-					if !pos.is_empty() {
-						let contiguous = pos.windows(2).all(|w| w[1] == w[0] + 1);
-						let in_order = pos.iter().map(|i| sq[*i]).collect::<Vec<_>>() == ol;
-						if !contiguous || !in_order {
-							rt::violation("C08", format!("owned-unit-split|{}", s.shape_key()), format!("owned unit {} is not acquired as one contiguous block in its declared order: blocking sequence {:?} for {}", u, sq, s.describe()));
+			// an owned group's leaves must be contiguous and in declared order (arena units and the units of native shapes)
+			{
+				let unit_of = w.unit.borrow().clone();
+				let mut units: Vec<u32> = t.leaves.iter().map(|l| unit_of[*l as usize]).filter(|u| *u != 0).collect();
+				units.sort();
+				units.dedup();
+				for (_, sq) in &seqs {
+					for u in &units {
+						let declared: Vec<u32> = t.leaves.iter().copied().filter(|l| unit_of[*l as usize] == *u).collect();
+						let pos: Vec<usize> = sq.iter().enumerate().filter(|(_, l)| declared.contains(l)).map(|(i, _)| i).collect();
+						if !pos.is_empty() {
+							let contiguous = pos.windows(2).all(|w| w[1] == w[0] + 1);
+							let in_order = pos.iter().map(|i| sq[*i]).collect::<Vec<_>>() == declared;
+							if !contiguous || !in_order {
+								rt::violation("C08", format!("owned-unit-split|{}", s.shape_key()), format!("owned unit {} (declared {:?}) is not acquired as one contiguous block in its declared order: blocking sequence {:?} for {}", u, declared, sq, s.describe()));
+							}
 						}
 					}
 				}
